@@ -8,6 +8,8 @@ Definition jv_res (r : res) : jv :=
   | RBytes o => jv_outcome JB o
   | RList o => jv_outcome jv_list o
   | RDict o => jv_outcome jv_dict o
+  | ROpt o => jv_outcome (jopt JB) o
+  | RUnit => JC "Unit" []
   end.
 
 (* kernel-shaped command line: printed file, model answer, demanded answer *)
@@ -38,7 +40,7 @@ Definition run_link (r : klink) : jv :=
 Definition k_exe_link (r : kproc) : jv := jopt (fun l => JB (k_link l)) (p_exe r).
 Definition run_exe (c : cfg) (r r2 : kproc) : jv :=
   JL [ JL [JB (k_cmdline (p_cmd r)); k_exe_link r; JB (k_cmdline (p_cmd r2)); k_exe_link r2];
-       JL (map jv_res (run_ops c None [(view_proc r, OpExe); (view_proc r2, OpExe)]));
+       JL (map jv_res (run_ops c st0 [(view_proc r, OpExe); (view_proc r2, OpExe)]));
        (if wf_proc r && (spec_cached r || wf_proc r2)
         then JL [jv_outcome JB (spec_exe r); jv_outcome JB (if spec_cached r then spec_exe r else spec_exe r2)]
         else jnone);
@@ -51,21 +53,28 @@ Definition run_name (c : cfg) (r : kproc) : jv :=
        jv_outcome jv_list (pl_cmdline c (view_proc r)) ].
 
 Definition run_zombie (c : cfg) (comm : bytes) (esrch : bool) : jv :=
-  JL [ JL (map jv_res (run_ops c None (zombie_ops (view_zombie comm esrch))));
+  JL [ JL (map jv_res (run_ops c st0 (zombie_ops (view_zombie comm esrch))));
        JL (map jv_res (spec_zombie comm)) ].
 
 Definition run_gone (c : cfg) (denied esrch : bool) : jv :=
-  JL [ JL (map jv_res (run_ops c None (gone_ops denied esrch))); JL (map jv_res (spec_gone denied)) ].
+  JL [ JL (map jv_res (run_ops c st0 (gone_ops denied esrch))); JL (map jv_res (spec_gone denied)) ].
+
+(* a history of OS states with a name()/repr()/as_dict() call in each *)
+Definition run_nhist (c : cfg) (h : list (nstate * op)) : jv :=
+  JL [ JL (map (fun so => JB (if n_zombie (fst so) then [] else k_cmdline (n_cmd (fst so)))) h);
+       JL (map jv_res (run_ops c st0 (map (fun so => (view_nstate (fst so), snd so)) h)));
+       (if forallb (fun so => wf_nstate (fst so) && name_family (snd so)) h
+        then JL (map jv_res (map spec_name_step h)) else jnone) ].
 
 Definition run_hist (c : cfg) (r : kproc) : jv :=
   JL [ JL [JB (k_cmdline (p_cmd r)); k_exe_link r];
-       JL (map jv_res (run_ops c None (hist_ops (view_proc r))));
+       JL (map jv_res (run_ops c st0 (hist_ops (view_proc r))));
        (if wf_proc r then JL (map jv_res (spec_hist r)) else jnone);
        jv_outcome jv_list (pl_cmdline c (view_proc r)) ].
 
 (* arbitrary (possibly malformed) views and call sequences: model answer only *)
 Definition run_view (c : cfg) (steps : list (pview * op)) : jv :=
-  JL [ JL (map jv_res (run_ops c None steps));
+  JL [ JL (map jv_res (run_ops c st0 steps));
        JL (map (fun s => jv_outcome jv_list (pl_cmdline c (fst s))) steps) ].
 
 (* every byte string as a cmdline file: model and the documented rule *)
